@@ -89,10 +89,14 @@ func (e *Engine) DetachHandler(prefix enc.Name) error {
 	defer e.fibLock.Unlock()
 
 	n := e.fib.ExactMatch(prefix)
-	if n == nil {
+	if n == nil || n.Value() == nil {
 		return ndn.ErrInvalidValue{Item: "prefix", Value: prefix}
 	}
-	n.Delete()
+	// Remove this handler only: handlers attached below and above stay
+	n.SetValue(nil)
+	n.DeleteIf(func(h ndn.InterestHandler) bool {
+		return h == nil
+	})
 	return nil
 }
 
